@@ -308,6 +308,30 @@ def run_miri(cfg, lines, timeout=3000):
                          is_ub="Undefined Behavior" in err)
     return out, None
 
+def run_logmodel(cfg, lines):
+    """model side of the site-log correspondence (C08): SitesAll.parseFloatLog through `lean --run`
+    (the module imports Mathlib tactics, so it cannot be linked into the driver executable)"""
+    n = len(lines)
+    if n == 0:
+        return []
+    k = max(1, min(NCPU, n // 150 + 1))
+    size = (n + k - 1) // k
+    chunks = [lines[i:i + size] for i in range(0, n, size)]
+    def one(ch):
+        p = subprocess.run(["lake", "env", "lean", "--run", "LogDriver.lean", cfg], cwd=LEAN,
+                           input=("\n".join(ch) + "\n").encode("latin-1"), stdout=subprocess.PIPE, stderr=subprocess.PIPE, env=ENV)
+        out = p.stdout.decode("latin-1").split("\n")
+        if out and out[-1] == "":
+            out.pop()
+        if p.returncode != 0 or len(out) != len(ch):
+            raise RuntimeError("LogDriver failed rc=%d lines %d/%d: %s" % (p.returncode, len(out), len(ch), (p.stdout.decode()[-300:] + p.stderr.decode()[-300:])))
+        return out
+    res = []
+    with ThreadPoolExecutor(max_workers=k) as ex:
+        for o in ex.map(one, chunks):
+            res.extend(o)
+    return res
+
 def split_ms(mline):
     """driver line -> (model part, spec part or None)"""
     if " | S " in mline:
